@@ -98,6 +98,51 @@ def stopStep (pre : Snap) (t : Track) (s : Step) : Bool :=
 def detachStep (cfg : Cfg) (pre : Snap) (t : Track) (s : Step) : Bool :=
   !(track pre t s).lateCancel || Afkak.Monitor.C01.resolvedFiredStep cfg pre t s
 
+/-! ## the looping call's clock
+
+`batch_every_t` is served by a Twisted `LoopingCall(self._send_batch)` started with `now=False` on the
+client's reactor: calls at `start + k·T`, a call that became due while the clock jumped is made once (late),
+the missed multiples are skipped; `_send_batch` returns `None`, so the looping call never waits for a
+Deferred of its callee.  The model takes `tick` as an input event; `scheduleFrom` is the assumption on WHEN
+ticks happen, checked on every trace of the real Producer (over the real `LoopingCall`). -/
+
+/-- the next call time after a call made at `now` (start at 0): the next multiple of the period -/
+def nextDue (T now : Rat) : Rat := (((now / T).floor + 1 : Int) : Rat) * T
+
+/-- the clock (time, next due call) after a trace -/
+def clockFrom (T : Rat) : Rat → Rat → List Step → Rat × Rat
+  | now, due, [] => (now, due)
+  | now, due, s :: rest =>
+    match s.ev with
+    | .advance dt => clockFrom T (now + dt) due rest
+    | .tick => clockFrom T now (nextDue T now) rest
+    | _ => clockFrom T now due rest
+
+/-- is the looping call running after a trace? -/
+def runningAfter : Bool → List Step → Bool
+  | r, [] => r
+  | _, s :: rest => runningAfter s.post.looper rest
+
+/-- The schedule: time only moves forward; a tick happens only when the running looping call is due, and
+    the next one is due at the next multiple of the period (more than 0, at most one period ahead); while a
+    call is overdue nothing happens but timers firing (the reactor runs everything due before it returns). -/
+def scheduleFrom (T : Rat) : Rat → Rat → Bool → List Step → Bool
+  | _, _, _, [] => true
+  | now, due, run, s :: rest =>
+    let overdue := run && decide (due ≤ now)
+    match s.ev with
+    | .advance dt => decide (0 ≤ dt) && !overdue && scheduleFrom T (now + dt) due s.post.looper rest
+    | .tick => overdue && decide (now < nextDue T now) && decide (nextDue T now ≤ now + T) &&
+        scheduleFrom T now (nextDue T now) s.post.looper rest
+    | .timer _ => scheduleFrom T now due s.post.looper rest
+    | _ => !overdue && scheduleFrom T now due s.post.looper rest
+
+/-- … from the construction of the producer (at reactor time 0) -/
+def schedule (cfg : Cfg) (tr : List Step) : Bool :=
+  match cfg.everyT with
+  | some T => scheduleFrom T 0 T (Snap.init cfg).looper tr
+  | none => tr.all (fun s => match s.ev with | .tick => false | _ => true)
+
 def detach (cfg : Cfg) (tr : List Step) : Bool := checkTrace cfg (detachStep cfg) tr
 def accounting (cfg : Cfg) (tr : List Step) : Bool := checkTrace cfg accountingStep tr
 def dispatchIff (cfg : Cfg) (tr : List Step) : Bool := checkTrace cfg (dispatchStep cfg) tr
